@@ -6,7 +6,7 @@ from typing import Dict, List, Optional, Set
 
 from .. import q
 from ..boolterm import Converter, Undecided, atom, equivalent, head_name, mk, show
-from ..core import AnchorError, ClassInfo, Ctx, FuncInfo, dotted, norm, returns_or_raises_everywhere, walk_no_nested
+from ..core import guard_facts, AnchorError, ClassInfo, Ctx, FuncInfo, dotted, norm, returns_or_raises_everywhere, walk_no_nested
 
 ID = "C11"
 TECHNIQUE = (
@@ -252,6 +252,9 @@ def check_decompile(ctx: Ctx, fi: Optional[FuncInfo], step: FuncInfo):
     # vanilla copy
     cp = [n for n in walk_no_nested(fi.node) if isinstance(n, ast.Assign) and isinstance(n.value, ast.Call) and isinstance(n.value.func, ast.Attribute) and n.value.func.attr == "copy" and n.value.args and isinstance(n.value.args[0], ast.Constant) and n.value.args[0].value is True]
     ctx.check(len(cp) == 1, "TS-SECTION", fi, "works on a vanilla copy", "qubits are named q<i>, the argument is untouched", "the circuit is not copied with vanilla=True: expressions would use (possibly duplicated) compiler names", fi.node)
+    if len(cp) == 1:
+        conds = [("" if pol else "not ") + norm(e) for e, pol in guard_facts(fi, cp[0])]
+        ctx.check(not conds, "TS-SECTION", fi, "the vanilla copy is taken unconditionally", "", f"the vanilla copy is skipped unless {conds}: the gates are then read through the caller's own name -> qubit map, in which names may have been re-pointed (q0 -> 1, q1 -> 0) or aliased, so expressions are written over, and assigned to, the wrong qubits", cp[0])
     core, par = q.reversal_parity(it)
     sentinel = False
     src = it
